@@ -50,6 +50,12 @@ def _tx_key(eng, x, st):
 
 # level / notes per property; functions and lemmas come from the props tags on the contracts
 PROPS = {
+    'C15': dict(level='proof', native=['native.c15'],
+                explanation="contracts of the two key hand-out functions verified from source against the bookkeeping "
+                            "invariant (unused keys distinct, none annotated, all with a key pair): the key handed out was "
+                            "never handed out before and is not handed out again while unused keys remain; structure of "
+                            "save_wallet (temporary file, then one atomic replace). File round trip, balance and crash "
+                            "points are exercised by a bounded run (reported under `bounded`)"),
     'C14': dict(level='proof', native=['native.c14'],
                 explanation="contracts of create_spend_transaction and sign_transaction verified from source (nested loops over "
                             "the wallet's keys and their unspent outputs with invariants; set update; external signing stub): "
